@@ -216,8 +216,48 @@ class Resolver:
 
     def reaching(self, name, at):
         """Value node reaching a use of `name` in statement `at` (None when not unambiguous)."""
+        if name in self.params and name in self.binds and name not in self.impure and at is not None:
+            # a parameter that the function re-binds: after an unconditional re-binding the name stands for the new value; where a
+            # re-binding MAY have happened (in a branch or a loop before / around the use) it stands for neither - an opaque marker
+            v = self._reaching(name, at)
+            if v is not None:
+                # `x = atleast_1d(x)` / `x = x if isinstance(x, ndarray) else array(x)`: the argument normalised to an array is still
+                # the argument (the rules speak about its values) - the name stays the parameter
+                def same(e):
+                    if isinstance(e, ast.Name):
+                        return e.id == name
+                    if isinstance(e, ast.IfExp):
+                        return same(e.body) and same(e.orelse)
+                    if isinstance(e, ast.Call) and len(e.args) == 1 and not e.keywords:
+                        f = e.func
+                        nm = f.id if isinstance(f, ast.Name) else f.attr if isinstance(f, ast.Attribute) else None
+                        if nm in ("atleast_1d", "asarray", "array", "asanyarray", "ascontiguousarray", "asfarray"):
+                            return same(e.args[0])
+                    return False
+                if isinstance(v, ast.Call) and isinstance(v.func, ast.Name) and v.func.id == "Phi":
+                    return v
+                return None if same(v) else v
+            at_line = getattr(at, "lineno", 0)
+            for kind, st_, _, _ in self.binds[name]:
+                if st_ is at:
+                    continue
+                in_loop = False
+                cur = at
+                while cur is not None and id(cur) in self.parent:
+                    owner = self.parent[id(cur)][1]
+                    if isinstance(owner, (ast.For, ast.While)) and any(x is st_ for x in ast.walk(owner)):
+                        in_loop = True
+                    cur = owner
+                if getattr(st_, "lineno", 0) < at_line or in_loop:
+                    m = ast.Call(func=ast.Name(id="MaybeRebound__", ctx=ast.Load()), args=[ast.Name(id=name, ctx=ast.Load())], keywords=[])
+                    m._at = at
+                    return m
+            return None
         if name in self.params or name in self.impure or name not in self.binds or at is None:
             return None
+        return self._reaching(name, at)
+
+    def _reaching(self, name, at):
         bs = self.binds[name]
         if any(b[0] == "other" for b in bs) or any(id(b[1]) not in self.parent for b in bs):
             return None
